@@ -410,6 +410,18 @@ class PosSim:
         step = e.delta - self._pdelta
         self._pdelta = e.delta
         old = self.pval
+        if e.val in self.memo and isinstance(self.memo[e.val], Node) and step in (1, -1):
+            # the new partition value was computed (and resolved to a node) earlier on the path; if the list was re-linked in between,
+            # std::prev / std::next of then is not the neighbour of now
+            n_then = self.memo[e.val]
+            n_now = self.before_mark() if step == -1 else None
+            if step == -1 and n_now is not n_then and n_then in self.items:
+                self.problems.append(('STALE-POSITION', 'partition iterator set to a position computed before the list was re-linked: it names %s, '
+                                      'not the node now in front of the partition' % repr(n_then), e.site))
+                self.items.remove(self.mark)
+                self.items.insert(self.items.index(n_then), self.mark)
+                self.pval = e.val
+                return
         if step == 1:
             n = self.after_mark()
             if not isinstance(n, Node):
